@@ -97,13 +97,27 @@ LengthOk(e) == /\ WitLen(e.chord, e.pts[1], e.pts[Len(e.pts)])
 \* normalized tangent: a unit vector which, scaled by the witnessed length of the derivative (a positive rational by
 \* construction of the record), gives the derivative back: same direction AND same orientation
 TangentOk(e) == Dot(e.obs, e.obs) = F1 /\ VScale(e.obs, e.len) = Deriv(e.pts, e.t) /\ e.len # F0
-AxiomOps == {"bez_tangent", "bez_circle", "bez_extrema", "bez_bounds", "bez_search", "bez_length"}
+\* a quadratic coordinate with control values k0, k1, k2 (tenths) has its only critical point at t* = (k0-k1)/den,
+\* den = k0 - 2 k1 + k2, with value k0 - (k0-k1)^2/den: a minimum if den > 0, a maximum if den < 0.  The bounding
+\* box of the curve - and of ANY degree-elevated copy of it - is therefore known in closed form; float boxes are
+\* logged as round(coordinate * 10 * 1024) and compared after multiplying through by den (slack 8/1024 tenths)
+QuadInterior(k0, k1, k2) == LET den == k0 - 2 * k1 + k2   nt == k0 - k1
+                            IN (den > 0 /\ 0 < nt /\ nt < den) \/ (den < 0 /\ den < nt /\ nt < 0)
+QuadSideOk(obs, k0, k1, k2, isMin) ==
+    LET den == k0 - 2 * k1 + k2   nt == k0 - k1
+    IN IF QuadInterior(k0, k1, k2) /\ ((isMin /\ den > 0) \/ (~isMin /\ den < 0))
+       THEN Abs(obs * den - (k0 * den - nt * nt) * 1024) <= 8 * Abs(den)
+       ELSE Abs(obs - 1024 * (IF isMin THEN Min2(k0, k2) ELSE Max2(k0, k2))) <= 8
+ElevOk(e) == \A a \in 1 .. Len(e.obs.min) : /\ QuadSideOk(e.obs.min[a], e.k[1][a], e.k[2][a], e.k[3][a], TRUE)
+                                           /\ QuadSideOk(e.obs.max[a], e.k[1][a], e.k[2][a], e.k[3][a], FALSE)
+AxiomOps == {"bez_tangent", "bez_circle", "bez_extrema", "bez_bounds", "bez_search", "bez_length", "bez_elev_f"}
 Conforms(e) == e.pan = 0 /\ CASE e.op = "bez_circle" -> CircleOk(e)
                               [] e.op = "bez_tangent" -> TangentOk(e)
                               [] e.op = "bez_extrema" -> ExtremaOk(e)
                               [] e.op = "bez_bounds" -> BoundsOk(e)
                               [] e.op = "bez_search" -> SearchOk(e)
                               [] e.op = "bez_length" -> LengthOk(e)
+                              [] e.op = "bez_elev_f" -> ElevOk(e)
                               [] OTHER -> e.obs = Expected(e)
 
 Init == l = 1
@@ -123,9 +137,10 @@ BezExtrema == Step("bez_extrema")
 BezBounds == Step("bez_bounds")
 BezSearch == Step("bez_search")
 BezLength == Step("bez_length")
+BezElevF == Step("bez_elev_f")
 BezTangent == Step("bez_tangent")
 Next == BezEval \/ BezDeriv \/ BezSplit \/ BezConv \/ BezMatrixA \/ BezMulA \/ BezCircle
-        \/ BezExtrema \/ BezBounds \/ BezSearch \/ BezLength \/ BezTangent
+        \/ BezExtrema \/ BezBounds \/ BezSearch \/ BezLength \/ BezTangent \/ BezElevF
 Accepted == IF TLCGet("stats").diameter - 1 = Len(Rec) THEN TRUE
             ELSE PrintT(ToJson([tag |-> "REJECTED_AT", l |-> TLCGet("stats").diameter])) /\ FALSE
 =============================================================================
